@@ -47,7 +47,7 @@ proof fn lemma_rules_none(rules: Seq<ArtifactRule>, n: int, m: int, q0: Set<Virt
 {
     if n < m { lemma_rules_none(rules, n, m - 1, q0, c); }
 }
-//@extract src/rulelib.rs fn:apply_rules_on_link props=C03,C14
+//@extract src/rulelib.rs fn:apply_rules_on_link props=C03,C08,C13,C14
 //@hoist VerificationDataList
 //@subst D32 /src_link\s*\.materials\s*\.iter\(\)\s*\.filter_map\(\|\(path, _\)\| canonicalize_path\(path\)\)\s*\.collect\(\)/ => canon_paths(&src_link.materials)
 //@subst D32 /src_link\s*\.products\s*\.iter\(\)\s*\.filter_map\(\|\(path, _\)\| canonicalize_path\(path\)\)\s*\.collect\(\)/ => canon_paths(&src_link.products)
